@@ -227,12 +227,21 @@ static void arena_init(void)
 		if (arena[i] == MAP_FAILED) { perror("mmap"); exit(3); }
 	}
 }
+static int arena_open[2];
+static void arena_set(int a, int open)
+{
+	if (arena_open[a] == open) return;
+	mprotect(arena[a] + PG, PG * DATA_PAGES, open ? PROT_READ | PROT_WRITE : PROT_NONE);
+	arena_open[a] = open;
+}
 static u8 *place(int a, int plc, const u8 *src, u32 len, u32 copy, u8 **end)
 {
 	u8 *lo = arena[a] + PG, *hi = arena[a] + PG * (DATA_PAGES + 1);
-	mprotect(lo, PG * DATA_PAGES, PROT_READ | PROT_WRITE);
-	memset(lo, 0xA5, PG * DATA_PAGES);
+	arena_set(a, 1);
 	u8 *d = plc == 0 ? hi - len : lo;
+	/* poison a margin on the accessible side of the frame (the other side is the guard page) */
+	if (plc == 0) { u8 *m = d - 256 < lo ? lo : d - 256; memset(m, 0xA5, d - m); }
+	else { u8 *m = d + len + 256 > hi ? hi : d + len + 256; memset(d + len, 0xA5, m - (d + len)); }
 	if (copy) memcpy(d, src, copy);
 	if (len > copy) memset(d + copy, 0, len - copy);
 	*end = d + len;
@@ -250,7 +259,7 @@ long bpf_xdp_adjust_tail(void *ctx, int delta)
 	int other = 1 - cur_arena;
 	u8 *end;
 	u8 *d = place(other, placement, (u8 *)(uintptr_t)x->data, nl, nl < len ? nl : len, &end);
-	mprotect(arena[cur_arena] + PG, PG * DATA_PAGES, PROT_NONE); /* stale packet pointers now fault */
+	arena_set(cur_arena, 0); /* stale packet pointers now fault */
 	cur_arena = other;
 	x->data = (u64)(uintptr_t)d; x->data_end = (u64)(uintptr_t)end;
 	return 0;
@@ -336,7 +345,7 @@ int main(void)
 			for (int i = 0; i < nprogs; i++) if (!strcmp(progs[i].name, (char *)n)) p = &progs[i];
 			if (!p || fl > MAX_FRAME) { wr32(1); free(n); free(f); break; }
 			placement = plc; cur_arena = 0;
-			mprotect(arena[1] + PG, PG * DATA_PAGES, PROT_NONE);
+			arena_set(1, 0);
 			u8 *end; u8 *d = place(0, plc, f, fl, fl, &end);
 			nlog = 0; log_on = 1; clock_calls = 0;
 			for (int i = 0; i < nevt; i++) free(evts[i].data);
@@ -381,7 +390,7 @@ int main(void)
 			for (int i = 0; i < nprogs; i++) if (!strcmp(progs[i].name, (char *)n)) p = &progs[i];
 			if (!p || p->kind != 1 || fl > MAX_FRAME) { fprintf(stderr, "HARNESS: bad sequence target\n"); return 4; }
 			placement = plc; cur_arena = 0;
-			mprotect(arena[1] + PG, PG * DATA_PAGES, PROT_NONE);
+			arena_set(1, 0);
 			u8 *end; u8 *d = place(0, plc, f, fl, fl, &end);
 			log_on = 0;
 			struct __sk_buff sk; 
